@@ -90,6 +90,11 @@ type sessIn struct {
 	InitRefuse []string `json:"init_refuse,omitempty"`
 	Events     []evIn   `json:"events"`
 	Solo       bool     `json:"solo,omitempty"` // run alone in its own process (expected to kill it)
+	// the receiver holds back its answer to the init PUT of this representation; DELETE is sent
+	// meanwhile, then the receiver answers
+	HoldInit string `json:"delete_during_init_of,omitempty"`
+	// stop playing step events after this many steps were not taken (0: play all)
+	StopAfterRefused int `json:"stop_after_refused,omitempty"`
 	// real-time sessions: create at a wall-clock instant this many ms after a multiple of AlignMS
 	AlignMS  int64 `json:"align_ms,omitempty"`
 	AlignOff int64 `json:"align_off,omitempty"`
@@ -175,6 +180,8 @@ type receiver struct {
 	sess     *sessIn
 	seenRep  map[string]bool
 	slowed   map[int]bool
+	held     chan struct{} // closed when the held init PUT has arrived
+	release  chan struct{} // closed to let the receiver answer it
 }
 
 var streamsRe = regexp.MustCompile(`^Streams\((.+)\.(cmf[vatm])\)$`)
@@ -244,6 +251,7 @@ func (r *receiver) ServeHTTP(w http.ResponseWriter, req *http.Request) {
 	if slow > 0 {
 		time.Sleep(time.Duration(slow) * time.Millisecond)
 	}
+	hold := first && r.sess.HoldInit == rep && r.held != nil
 	if !(status != 200 && early) {
 		body, _ := io.ReadAll(req.Body)
 		o.body = body
@@ -251,6 +259,13 @@ func (r *receiver) ServeHTTP(w http.ResponseWriter, req *http.Request) {
 		o.Len = len(body)
 		h := sha256.Sum256(body)
 		o.Hash = hex.EncodeToString(h[:])
+	}
+	if hold {
+		close(r.held)
+		select {
+		case <-r.release:
+		case <-time.After(10 * time.Second):
+		}
 	}
 	o.Answered = status
 	w.WriteHeader(status)
@@ -339,6 +354,9 @@ type sessRun struct {
 
 func createSession(ls *lib.Livesim, in *sessIn) *sessRun {
 	rc := &receiver{sess: in, ev: -1, seenRep: map[string]bool{}, slowed: map[int]bool{}, lastAct: time.Now()}
+	if in.HoldInit != "" {
+		rc.held, rc.release = make(chan struct{}), make(chan struct{})
+	}
 	srv := httptest.NewServer(rc)
 	sr := &sessRun{in: in, out: &sessOut{ID: in.ID}, rc: rc, srv: srv}
 	setup := map[string]any{"destRoot": srv.URL, "destName": in.DestName, "livesimURL": in.livesimURL(), "streamsURLs": in.Streams}
@@ -386,6 +404,31 @@ func createSession(ls *lib.Livesim, in *sessIn) *sessRun {
 	}
 	sr.out.NrSegs, sr.out.HasNr, sr.out.Chunked, sr.out.Reps, sr.out.SegDurMS, sr.out.LoopMS, sr.out.RefRep = nr, has, chunked, reps, segDur, loopMS, ref
 	sr.nrep = len(reps)
+	if in.HoldInit != "" {
+		// DELETE while the receiver sits on the init PUT; then the receiver answers
+		select {
+		case <-rc.held:
+			r := ls.Do("DELETE", sr.apiPath(""), nil, nil)
+			if r.Status != 200 {
+				sr.out.Err = fmt.Sprintf("DELETE during the init upload answered %d", r.Status)
+			}
+			time.Sleep(30 * time.Millisecond)
+		case <-time.After(5 * time.Second):
+			sr.out.Err = "the init PUT to hold never arrived"
+		}
+		close(rc.release)
+		// give a session that was not stopped the time to finish its init round
+		sr.rc.quiesce(0, sr.nrep, 400*time.Millisecond, 3*time.Second)
+		deadline := time.Now().Add(1500 * time.Millisecond)
+		for time.Now().Before(deadline) {
+			st, _ := app.VerifC16IngesterState(ls.Srv, sr.out.IngestID)
+			if st != 0 {
+				break
+			}
+			time.Sleep(2 * time.Millisecond)
+		}
+		return sr
+	}
 	// the init phase: one PUT per representation, then the session is running or stopped
 	sr.rc.quiesce(0, sr.nrep, 300*time.Millisecond, 5*time.Second)
 	deadline := time.Now().Add(3 * time.Second)
@@ -421,7 +464,11 @@ func (sr *sessRun) play(ls *lib.Livesim) {
 	sr.rc.mu.Lock()
 	from := len(sr.rc.log)
 	sr.rc.mu.Unlock()
+	refused := 0
 	for k, e := range in.Events {
+		if in.StopAfterRefused > 0 && refused >= in.StopAfterRefused && e.Kind == "step" {
+			break // the remaining steps would each wait for the 2 s step time-out of the server
+		}
 		emit(childMsg{Type: "progress", ID: in.ID, Event: k})
 		sr.rc.mu.Lock()
 		sr.rc.ev = k
@@ -436,6 +483,7 @@ func (sr *sessRun) play(ls *lib.Livesim) {
 				// 200: the session took the step; 410 (since fix 2d98cef): it did not within 2 s
 				eo.Returned, eo.Status = r.Status == 200, r.Status
 				if r.Status != 200 {
+					refused++
 					break
 				}
 				q, mw := quiet, maxWait
@@ -446,6 +494,7 @@ func (sr *sessRun) play(ls *lib.Livesim) {
 				sr.rc.quiesce(from, sr.nrep, q, mw)
 			case <-time.After(stepTimeout):
 				eo.Returned = false
+				refused++
 			}
 		case "delete":
 			r := ls.Do("DELETE", sr.apiPath(""), nil, nil)
